@@ -11,6 +11,10 @@ numerics are C01–C05's business), except quantized_bits with a constant scale 
 computes with the C01 model.  `rsqrt` is an oracle table; every other float32 step of
 add_bn_fusing_weights is simulated (`rnd32`) and compared bit for bit.
 
+The (quantizer, weight) pairing of the export is the MODEL's (`layerQs`: QBatchNormalization by
+scale / center, QBidirectional per direction, recurrent layers without the state quantizer); the harness
+only lists the pairing each layer's own call() uses (`fwd_pairing`) for the clause oracle.
+
 Clause oracle (judges the real outputs directly, independent of model agreement):
   quantized_once   layer weights after export == the layer's OWN quantizer (the one its call() uses
                    for that weight) applied once to the previous weights, bit for bit
@@ -18,7 +22,8 @@ Clause oracle (judges the real outputs directly, independent of model agreement)
   autopo2_rebuild  scale * hw == stored, hw integer, |hw| <= 2^(bits-1)-1 (Lean `judge_autopo2`)
   bn_terms         bn_inv / fused_bias == float32-simulated BN algebra on the parameters the layers
                    hold after the export (Lean `judge_bn`)
-  pool             q_mult_factor == average quantizer of 1/pool_area
+  pool             q_mult_factor == average quantizer of 1/pool_area (the plain factor without quantizer)
+  export_raises    the export must not raise on any generated model
   predict_same / second_noop  for models whose quantizer scales are all data independent
   freeze           clone_model_and_freeze_auto_po2_scale: same HW weights, then repeatable
   sparsity         get_model_sparsity == fraction of zeros of the exported weights
@@ -186,6 +191,8 @@ def layer_kind(l):
     return "folded"
   if isinstance(l, (QSimpleRNN, QLSTM, QGRU)):
     return "rnn"
+  if l.__class__.__name__ == "QBidirectional":
+    return "bidir"
   return "plain"
 
 
@@ -196,7 +203,8 @@ ALLOW = ["QDense", "Dense", "QConv1D", "Conv1D", "QConv2D", "Conv2D", "QDepthwis
 
 
 def fwd_pairing(l, kind, nq):
-  """indices into get_quantizers() that the layer's own call() applies to get_weights()[k]"""
+  """indices into get_quantizers() that the layer's own call() applies to get_weights()[k]
+  (written from the layers' call() code, independently of the export)"""
   cls = l.__class__.__name__
   if cls == "QBatchNormalization":
     out = []
@@ -206,8 +214,11 @@ def fwd_pairing(l, kind, nq):
       out.append(1)
     return out + [2, 3]
   if cls == "QBidirectional":
+    # each direction's cell quantizes its [kernel, recurrent_kernel(, bias)] with its first quantizers
     h = nq // 2
-    return list(range(0, h - 1)) + list(range(h, 2 * h - 1))
+    nf = len(l.forward_layer.get_weights())
+    nb = len(l.backward_layer.get_weights())
+    return list(range(0, nf)) + list(range(h, h + nb))
   if kind == "rnn":
     return list(range(nq - 1))
   if cls in ("QAveragePooling2D", "QGlobalAveragePooling2D"):
@@ -339,9 +350,6 @@ class RealRun:
       for q in qs:
         if q is not None and id(q) not in self.tables:
           self.tables[id(q)] = QTable(q)
-    self.exp_pair = []
-    for l, kind, qs in zip(layers, self.kinds, self.qs):
-      self.exp_pair.append(list(range(len(qs) - 1)) if kind == "rnn" else list(range(len(qs))))
     self.data_dep = any(data_dependent(q) for qs in self.qs for q in qs)
     self.rsq_rows = {}
     self.fold_rows = []
@@ -353,16 +361,15 @@ class RealRun:
       if kind == "folded":
         fw = [f32a(t) for t in l.get_folded_weights()]
         self.folded[i] = fw
-    # ---- oracle closure: every tensor a position can hold within the exports, under the export
-    # pairing and under the layer's own pairing
+    # ---- oracle closure: every tensor a position can hold within the exports under the layer's own
+    # (quantizer, weight) pairing — the pairing the export has to use; if the export ever pairs
+    # differently the driver finds no table row (poison) and the weights disagree
     for i, (l, kind) in enumerate(zip(layers, self.kinds)):
       if kind == "noq":
         continue
       base = self.folded[i] if kind == "folded" else W0[i]
       for k, w in enumerate(base):
         cand = set()
-        if k < len(self.exp_pair[i]):
-          cand.add(self.exp_pair[i][k])
         if k < len(self.fwd[i]):
           cand.add(self.fwd[i][k])
         cand = [self.qs[i][c] for c in sorted(cand) if c < len(self.qs[i]) and self.qs[i][c] is not None]
@@ -401,7 +408,8 @@ class RealRun:
           area = int(l.compute_pooling_area(input_shape=l.input_shape))
         mf = 1.0 / area
         q = self.qs[i][0]
-        qm = self.tables[id(q)].call_scalar(mf) if q is not None else None
+        # without average quantizer the layer averages with the plain factor
+        qm = float(np.float32(self.tables[id(q)].call_scalar(mf))) if q is not None else mf
         self.pool[i] = (area, mf, qm)
     # ---- the real exports
     self.pred = [self._predict()]
@@ -489,6 +497,12 @@ class RealRun:
         d["pool"] = {"area": core.rj(area), "mf": core.rj(mf)}
       if kind == "folded":
         d["fold"] = [[[enc(t) for t in self.W[0][i]], [enc(t) for t in self.folded[i]]]]
+      if kind == "bidir":
+        nf, nb = len(l.forward_layer.get_weights()), len(l.backward_layer.get_weights())
+        nqf, nqb = len(l.forward_layer.get_quantizers()), len(l.backward_layer.get_quantizers())
+        if nf != nb or nqf != nqb:
+          raise core.InfraError("QBidirectional with asymmetric directions is outside the model")
+        d["dir_w"] = nf
       L.append(d)
     return {"op": "export", "n": n_exports, "rnd": "f32",
             "rsq": [[core.rj(a), core.rj(v)] for a, v in sorted(self.rsq_rows.items())],
@@ -596,6 +610,16 @@ def build_cases(rng, tier):
       return QBatchNormalization(center=False, gamma_quantizer=fx(6, 2, 0), mean_quantizer=fx(6, 2, 0),
                                  variance_quantizer=quantized_bits(6, 2, 0, keep_negative=False, alpha=1.0),
                                  name=name)
+    if kind == "noscale_nocenter":
+      # two weights [mean, variance] against five quantizers; gamma / beta quantizers stay the defaults
+      return QBatchNormalization(scale=False, center=False, mean_quantizer=fx(5, 1, 0),
+                                 variance_quantizer=quantized_bits(6, 2, 0, keep_negative=False, alpha=1.0),
+                                 name=name)
+    if kind == "noscale_po2":
+      # every slot a different quantizer family, so any other pairing shows in the weights
+      return QBatchNormalization(scale=False, gamma_quantizer=fx(3, 0, 0), beta_quantizer=quantized_po2(5),
+                                 mean_quantizer=fx(6, 2, 0),
+                                 variance_quantizer=quantized_relu_po2(5, 4), name=name)
     if kind == "noq":
       return QBatchNormalization(gamma_quantizer=None, variance_quantizer=None, beta_quantizer=None,
                                  mean_quantizer=None, name=name)
@@ -648,6 +672,10 @@ def build_cases(rng, tier):
         y = QGlobalAveragePooling2D(average_quantizer=quantized_bits(8, 0, 1, alpha=1.0), name="gap")(y)
       elif pool == "avg_none":
         y = QAveragePooling2D(pool_size=2, name="pool")(y)
+      elif pool == "avg3_none":
+        y = QAveragePooling2D(pool_size=(3, 3), strides=1, name="pool")(y)     # 1/9: not a dyadic factor
+      elif pool == "gap_none":
+        y = QGlobalAveragePooling2D(name="gap")(y)
       m = K.Model(inp, y)
       set_w(m)
       return m, xin((4, 4, 2))
@@ -674,6 +702,17 @@ def build_cases(rng, tier):
       m = K.Model(inp, y)
       set_w(m)
       return m, xin((3, 2))
+    return f
+
+  def mk_bn_alone(bnk):
+    """a batch-norm that is NOT fused (it follows a plain Dense): only the main loop touches it"""
+    def f():
+      x = inp = K.Input((4,))
+      y = K.layers.Dense(3, name="pd")(x)
+      y = bn(bnk)(y)
+      m = K.Model(inp, y)
+      set_w(m)
+      return m, xin((4,))
     return f
 
   def mk_folded(kq, bq):
@@ -761,7 +800,8 @@ def build_cases(rng, tier):
   for kq, bq, bnk in [("fx", "fx", None), ("apo2", "fx", None), ("po2", "po2", None), ("bin", "fx", None),
                       ("fx", "fx", "default"), ("fx", "fxn", "fx"), ("apo2", "fx", "fx"),
                       ("po2", "po2", "inv"), ("apo2", "fx", "inv_apo2"), ("fx", "fx", "noq"),
-                      ("fx", "fx", "noscale"), ("fx", "fx", "nocenter")]:
+                      ("fx", "fx", "noscale"), ("fx", "fx", "nocenter"), ("fx", "fxn", "noscale_nocenter"),
+                      ("apo2", "fx", "noscale_po2")]:
     add("QConv2D[%s,%s]+bn[%s]" % (kq, bq, bnk), {"cls": "QConv2D", "kq": kq, "bq": bq, "bn": bnk},
         mk_conv2d(kq, bq, bnk))
   add("QConv2D[fx,nobias]+bn[fx]", {"cls": "QConv2D", "bn": "fx", "nobias": True},
@@ -772,7 +812,9 @@ def build_cases(rng, tier):
                       ("fx", "none", "inv")]:
     add("QDepthwiseConv2D[%s,%s]+bn[%s]" % (kq, bq, bnk), {"cls": "QDepthwiseConv2D", "kq": kq, "bn": bnk},
         mk_conv2d(kq, bq, bnk, dw=True))
-  for p in ["avg", "avg2", "gap", "avg_none"]:
+  for bnk in ["noscale", "nocenter", "noscale_nocenter", "noscale_po2", "fx"]:
+    add("Dense+bn[%s]" % bnk, {"cls": "QBatchNormalization", "bn": bnk}, mk_bn_alone(bnk))
+  for p in ["avg", "avg2", "gap", "avg_none", "avg3_none", "gap_none"]:
     add("QConv2D+pool[%s]" % p, {"cls": "pool", "pool": p}, mk_conv2d("fx", "fx", pool=p))
   for dq, pq, bq in [("fx", "fx", "fx"), ("apo2", "po2", "fx"), ("po2", "apo2", "po2"), ("ter1", "bin1", "none")]:
     add("QSeparableConv2D[%s,%s,%s]" % (dq, pq, bq), {"cls": "QSeparableConv2D", "dq": dq, "pq": pq},
@@ -782,13 +824,21 @@ def build_cases(rng, tier):
     add("Q%s[%s,%s,%s]" % (cls, kq, rq, bq), {"cls": cls, "kq": kq, "rq": rq}, mk_rnn(cls, kq, rq, bq))
   add("Qrnn[nobias]", {"cls": "rnn", "nobias": True}, mk_rnn("rnn", "fx", "fx", "fx", use_bias=False))
   add("QBidirectional[rnn]", {"cls": "bidir"}, mk_rnn("rnn", "fx", "fx", "fx", bidir=True))
+  # every slot a different quantizer family (a shifted pairing shows in the weights), the three cell
+  # classes, and use_bias=False (two weights per direction against four quantizers)
+  for cls, kq, rq, bq, ub in [("rnn", "fx", "po2", "fxn", True), ("lstm", "ter1", "fx", "po2", True),
+                              ("gru", "po2", "bin1", "fx", True), ("rnn", "fx", "po2", "fx", False),
+                              ("lstm", "po2", "fx", "fx", False), ("rnn", "apo2", "fx", "po2", True)]:
+    add("QBidirectional[%s,%s,%s,%s,bias=%s]" % (cls, kq, rq, bq, ub),
+        {"cls": "bidir", "cell": cls, "kq": kq, "rq": rq, "nobias": not ub},
+        mk_rnn(cls, kq, rq, bq, bidir=True, use_bias=ub))
   add("QConv2DBatchnorm[fx,fx]", {"cls": "folded", "kq": "fx"}, mk_folded("fx", "fx"))
   add("QConv2DBatchnorm[po2,fx]", {"cls": "folded", "kq": "po2"}, mk_folded("po2", "fx"))
   add("chain(conv+bn,dw+bn,dense)", {"cls": "chain"}, mk_chain())
   # -- seeded random extras
   n_extra = 10 if tier == "quick" else 300
   for j in range(n_extra):
-    t = int(rng.integers(0, 5))
+    t = int(rng.integers(0, 6))
     kq = kqs[int(rng.integers(0, len(kqs) - 1))]      # fxa2 only in the fixed list
     bq = bqs[int(rng.integers(0, len(bqs)))]
     if kq == "apo2" and bq == "apo2":
@@ -796,7 +846,8 @@ def build_cases(rng, tier):
     if t == 0:
       add("r%d:QDense[%s,%s]" % (j, kq, bq), {"cls": "QDense", "kq": kq, "bq": bq}, mk_dense(kq, bq))
     elif t == 1:
-      bnk = [None, "default", "fx", "inv", "inv_apo2"][int(rng.integers(0, 5))]
+      bnk = [None, "default", "fx", "inv", "inv_apo2", "noscale", "nocenter",
+             "noscale_nocenter"][int(rng.integers(0, 8))]
       add("r%d:QConv2D[%s,%s]+bn[%s]" % (j, kq, bq, bnk), {"cls": "QConv2D", "kq": kq, "bq": bq, "bn": bnk},
           mk_conv2d(kq, bq, bnk))
     elif t == 2:
@@ -809,8 +860,16 @@ def build_cases(rng, tier):
         pq = "fx"
       add("r%d:QSeparableConv2D[%s,%s,%s]" % (j, kq, pq, bq), {"cls": "QSeparableConv2D", "dq": kq, "pq": pq},
           mk_sep(kq, pq, bq))
-    else:
+    elif t == 4:
       add("r%d:QConv1D[%s,%s]" % (j, kq, bq), {"cls": "QConv1D", "kq": kq, "bq": bq}, mk_conv1d(kq, bq))
+    else:
+      cell = ["rnn", "lstm", "gru"][int(rng.integers(0, 3))]
+      rq = ["fx", "po2", "ter1", "bin1"][int(rng.integers(0, 4))]
+      ub = bool(rng.integers(0, 2))
+      bd = bool(rng.integers(0, 3))          # 2 of 3 bidirectional
+      add("r%d:Q%s[%s,%s,%s,bidir=%s,bias=%s]" % (j, cell, kq, rq, bq, bd, ub),
+          {"cls": "bidir" if bd else cell, "kq": kq, "rq": rq, "nobias": not ub},
+          mk_rnn(cell, kq, rq, bq, bidir=bd, use_bias=ub))
   return cases
 
 
@@ -855,8 +914,9 @@ def run(run: core.Run, tier: str):
   run.extra["rule"] = (
       "tiny Keras models over QDense / QConv1D / QConv2D / QDepthwiseConv2D / QSeparableConv2D / "
       "QSimpleRNN / QLSTM / QGRU / QBidirectional / QConv2DBatchnorm / QAveragePooling2D / "
-      "QGlobalAveragePooling2D / QBatchNormalization (aligned, inverse quantizer, scale=False, "
-      "center=False) x weight quantizers (quantized_bits fixed, 1-bit, alpha=2, auto_po2, "
+      "QGlobalAveragePooling2D (with / without average quantizer) / QBatchNormalization (scale and "
+      "center, inverse quantizer, scale=False, center=False, both False; fused and stand-alone) "
+      "x weight quantizers (quantized_bits fixed, 1-bit, alpha=2, auto_po2, "
       "quantized_po2, binary, ternary, None, a zero-preserving po2 function) x dyadic weights with "
       "exact zeros and saturating values x three consecutive exports (third via get_model_sparsity); "
       "non-trivial = distinct (model template, quantizers, export round); branch histogram = "
@@ -1030,8 +1090,7 @@ def _compare_case(run, r, o, N, judge_lines, judge_meta):
         q = qs[own[k]] if k < len(own) and own[k] < len(qs) else None
         expect.append(r.tables[id(q)].call(w) if q is not None else f32a(w))
         run.count("q_" + str(q_kind(q)))
-      misaligned = (r.exp_pair[i][:len(src)] != own[:len(src)])
-      site = {"site": "zip", "cls": cls, "misaligned": misaligned,
+      site = {"site": "zip", "cls": cls,
               "bn_scale": bool(getattr(l, "scale", True)) if cls == "QBatchNormalization" else None,
               "bn_center": bool(getattr(l, "center", True)) if cls == "QBatchNormalization" else None}
       if kind != "folded":
@@ -1065,19 +1124,19 @@ def _compare_case(run, r, o, N, judge_lines, judge_meta):
           if kd == "po2":
             sg = ent["signs"]
             sign = sg[k] if (sg is not None and k < len(sg)) else "missing"
-          has_auto = sum(1 for kk in range(k) if kk < len(r.exp_pair[i]) and
-                         q_kind(qs[r.exp_pair[i][kk]]) == "autopo2") > 0
+          has_auto = sum(1 for kk in range(k) if kk < len(own) and own[kk] < len(qs) and
+                         q_kind(qs[own[kk]]) == "autopo2") > 0
           line = {"op": "judge_po2", "stored": enc(w), "hw": [[f.numerator, f.denominator] for f in ent["hw"][k]],
                   "neg_inf": ent["neg_inf"][k],
                   "sign": None if sign is None else ([[f.numerator, f.denominator] for f in sign]
                                                     if sign != "missing" else [])}
           judge_lines.append(line)
 
-          def meta(jo, label=label, rd=rd, l=l, k=k, cls=cls, misaligned=misaligned, has_auto=has_auto,
+          def meta(jo, label=label, rd=rd, l=l, k=k, cls=cls, has_auto=has_auto,
                    case_ok=case_ok, kd=kd, w=w, ent=ent):
             run.evaluations += 1
             if not jo["ok"]:
-              run.violate("po2_rebuild", {"site": "po2", "cls": cls, "misaligned": misaligned,
+              run.violate("po2_rebuild", {"site": "po2", "cls": cls,
                                           "autopo2_weight_before": has_auto, "kind": kd},
                           {"case": label, "round": rd, "layer": l.name, "weight_index": k,
                            "stored": [str(v) for v in fr(w)][:12], "exponent": [str(v) for v in ent["hw"][k]][:12],
@@ -1094,14 +1153,13 @@ def _compare_case(run, r, o, N, judge_lines, judge_meta):
                   "scale": [[f.numerator, f.denominator] for f in scale], "bits": int(q.bits)}
           judge_lines.append(line)
 
-          def meta2(jo, label=label, rd=rd, l=l, k=k, cls=cls, misaligned=misaligned, one=one,
+          def meta2(jo, label=label, rd=rd, l=l, k=k, cls=cls, one=one,
                     case_ok=case_ok, w=w, ent=ent, scale=scale, q=q, qscale=qscale):
             run.evaluations += 1
             run.count("autopo2_scale_is_one" if one else "autopo2_scale_not_one")
             for cl in ("rebuild", "integer", "range", "scale_po2"):
               if not jo[cl]:
-                run.violate("autopo2_" + cl, {"site": "autopo2_split", "quantizer_scale_is_one": one,
-                                              "misaligned": misaligned},
+                run.violate("autopo2_" + cl, {"site": "autopo2_split", "quantizer_scale_is_one": one},
                             {"case": label, "round": rd, "layer": l.name, "weight_index": k,
                              "quantizer": q_label(q),
                              "quantizer.scale": None if qscale is None else [str(v) for v in fr(qscale)][:8],
@@ -1112,7 +1170,7 @@ def _compare_case(run, r, o, N, judge_lines, judge_meta):
       if i in r.pool:
         area, mf, qm = r.pool[i]
         p = ent["pool"]
-        if p is None or p[0] != F(float(np.float32(qm))) or p[1] != F(mf) or p[2] != F(area):
+        if p is None or p[0] != F(qm) or p[1] != F(mf) or p[2] != F(area):
           run.violate("pool", {"site": "pool", "cls": cls}, {"case": label, "impl": str(p),
                                                             "expected": [str(qm), str(mf), area]}, mirrored=case_ok)
         run.count("pool_checked")
@@ -1121,7 +1179,7 @@ def _compare_case(run, r, o, N, judge_lines, judge_meta):
         b = ent["fused_bn"]
         bnl = layers[b]
         iq = r.qs[b][4]
-        bmis = not (bnl.scale and bnl.center)
+        bpart = not (bnl.scale and bnl.center)
         line = {"op": "judge_bn", "rnd": "f32",
                 "rsq": [[core.rj(a), core.rj(v)] for a, v in sorted(r.rsq_rows.items())],
                 "bn_w": [enc(t) for t in Wa[b]], "prev_w": [enc(t) for t in Wa[i]],
@@ -1129,13 +1187,13 @@ def _compare_case(run, r, o, N, judge_lines, judge_meta):
                 "inv_q": None if iq is None else r.tables[id(iq)].json(), "use_bias": bool(l.use_bias)}
         judge_lines.append(line)
 
-        def meta3(jo, label=label, rd=rd, l=l, cls=cls, ent=ent, case_ok=case_ok, bmis=bmis, bnl=bnl):
+        def meta3(jo, label=label, rd=rd, l=l, cls=cls, ent=ent, case_ok=case_ok, bpart=bpart, bnl=bnl):
           run.evaluations += 1
-          run.count("bn_terms_judged")
+          run.count("bn_terms_judged" + ("_no_scale_or_center" if bpart else ""))
           inv = [core.unrj(p) for p in jo["inv"]]
           fb = [core.unrj(p) for p in jo["fused_bias"]]
           if inv != ent["bn_inv"] or fb != ent["fused_bias"]:
-            run.violate("bn_terms", {"site": "bn_fusing", "cls": cls, "bn_misaligned": bmis},
+            run.violate("bn_terms", {"site": "bn_fusing", "cls": cls, "bn_scale_and_center": not bpart},
                         {"case": label, "round": rd, "layer": l.name, "bn": bnl.name,
                          "impl_inv": [str(v) for v in ent["bn_inv"]], "algebra_inv": [str(v) for v in inv],
                          "impl_fused_bias": [str(v) for v in ent["fused_bias"]],
@@ -1157,15 +1215,10 @@ def _compare_case(run, r, o, N, judge_lines, judge_meta):
       mirrored = False
     run.count("pred_same" if pred_same else "pred_changed")
     run.count("eff_same" if mo["eff_same"] else "eff_changed")
-    anymis = any(r.exp_pair[i][:len(r.W[0][i])] != r.fwd[i][:len(r.W[0][i])]
-                 for i in range(r.n) if r.kinds[i] in ("plain", "rnn"))
     const_alpha = any((q is not None and q.__class__.__name__ == "quantized_bits"
                        and isinstance(q.alpha, (int, float)) and q.alpha != 1) for qs in r.qs for q in qs)
-    mis_cls = "+".join(sorted({layers[i].__class__.__name__ for i in range(r.n)
-                               if r.kinds[i] in ("plain", "rnn") and
-                               r.exp_pair[i][:len(r.W[0][i])] != r.fwd[i][:len(r.W[0][i])]}))
-    site = {"site": "idempotence", "data_dependent_scale": r.data_dep, "misaligned": anymis,
-            "misaligned_cls": mis_cls, "const_alpha_not_1": const_alpha}
+    site = {"site": "idempotence", "data_dependent_scale": r.data_dep, "const_alpha_not_1": const_alpha,
+            "classes": "+".join(sorted({l.__class__.__name__ for l in layers if hasattr(l, "get_quantizers")}))}
     if all_indep:
       if not pred_same:
         run.violate("predict_unchanged", site, {"case": label, "round": rd,
